@@ -806,7 +806,7 @@ def gen_pipeline(rng):
     left = [[base[r][c + 3] + rng.randrange(0, 3) for c in range(cols)] for r in range(rows)]
     right = [[base[r][c + 2] for c in range(cols)] for r in range(rows)]
     mask = [[1 if rng.random() < 0.04 else 0 for _ in range(cols)] for _ in range(rows)]
-    return {"steps": steps, "left": left, "right": right, "mask": mask, "disp": [-2, 2]}
+    return {"steps": steps, "left": left, "right": right, "mask": mask, "disp": [-2, 2], "checked": rng.random() < 0.5}
 
 
 def run_pipeline(case, with_conf, upto_disparity=False):
@@ -826,7 +826,17 @@ def run_pipeline(case, with_conf, upto_disparity=False):
             break
     user = {"input": {"left": {"disp": list(case["disp"])}}, "pipeline": pipe}
     cfg = check_configuration.update_conf(check_configuration.default_short_configuration, user)
-    m = PandoraMachine()
+    if case.get("checked"):
+        # as pandora.main does: the configuration that is RUN is the one check_conf returned (completed with the
+        # defaults, "indicator" included), on the machine that checked it
+        rows, cols = np.array(case["left"]).shape[-2:]
+        m = PandoraMachine()
+        checked = check_configuration.check_pipeline_section(
+            {"pipeline": copy.deepcopy(pipe)}, pu.meta_dataset(rows, cols, disp=tuple(case["disp"])),
+            pu.meta_dataset(rows, cols, disp=(-case["disp"][1], -case["disp"][0])), m)
+        cfg["pipeline"] = checked["pipeline"]
+    else:
+        m = PandoraMachine()
     left, right = pandora.run(m, L, R, cfg)
     return left, right, m
 
